@@ -441,6 +441,23 @@ class Sym:
         c.assume(z3.And(d * z3.ToReal(k) <= s.e, s.e < d * (z3.ToReal(k) + 1)))
         return Sym(z3.ToReal(k))
 
+    def __divmod__(s, o):
+        q = s.__floordiv__(o)
+        return q, Sym(s.e - Sym.lift(o) * q.e)
+
+    def __mod__(s, o):
+        return s.__divmod__(o)[1]
+
+    def __int__(s):
+        """int() of an integer-valued symbolic quantity (e.g. a floor-division count): forks over the small values it can take."""
+        c = Ctx.cur
+        for v in (0, 1, -1, 2, -2, 3, -3, 4, -4, 5, -5, 6, -6, 7, -7, 8, -8):
+            if c.branch(s.e == v):
+                return v
+        raise Unsupported("int() of a symbolic value outside -8..8")
+
+    __index__ = __int__
+
     def __neg__(s):
         return Sym(-s.e)
 
